@@ -533,6 +533,9 @@ func (c *c10) pair(r *fw.Rec, av, bv c10Val) {
 	}
 	c.conversions(r, av, bv, a, b)
 	c.copyLaw(r, av, a)
+	if r.WantSample() && av.kind != bv.kind {
+		r.Sample(map[string]interface{}{"a": av.desc, "b": bv.desc, "results": show()})
+	}
 }
 
 // structural form that ignores identity-only equality
